@@ -635,8 +635,10 @@ impl World {
         };
         let aborted = outcome.deadlock.is_some() || outcome.step_cap_hit;
         if aborted {
-            // parked carrier threads are leaked on purpose (see DESIGN §3.2)
-            (None, outcome)
+            // parked carrier threads are leaked on purpose (see DESIGN §3.2); thread 0's result
+            // is handed out if it had finished before the abort
+            let r = result.lock().ok().and_then(|mut g| g.take());
+            (r, outcome)
         } else {
             let r = result.lock().unwrap().take();
             (r, outcome)
@@ -972,7 +974,7 @@ pub struct SimJoin<T> {
     pub(crate) result: Arc<StdMutex<Option<std::thread::Result<T>>>>,
 }
 
-pub(crate) fn spawn_sim<F, T>(w: &Arc<World>, me: Tid, f: F) -> SimJoin<T>
+pub(crate) fn spawn_sim<F, T>(w: &Arc<World>, me: Tid, name: Option<String>, f: F) -> SimJoin<T>
 where
     F: FnOnce() -> T + Send + 'static,
     T: Send + 'static,
@@ -983,7 +985,7 @@ where
             w.park_forever(g);
         }
         let n = g.threads.len();
-        let t = w.new_thread(&mut g, format!("spawned{n}"));
+        let t = w.new_thread(&mut g, name.unwrap_or_else(|| format!("spawned{n}")));
         g.log(me, ev::SPAWN, t as u64);
         t
     };
